@@ -15,7 +15,8 @@ N_SCEN = {"quick": 60, "thorough": 1500}
 RULE = (
     "scenarios over {str, render(padding), draw still, draw animated (loops, cache), full iteration, partial "
     "iteration + close twice, partial + drop reference, partial + seeks, Renderable.__iter__, "
-    "_from_render_data_(finalize=True/False)} on definite and INDEFINITE subjects; each scenario is profiled "
+    "_from_render_data_(finalize=True/False), two or three iterators alive together (constructor / handed-over "
+    "data with either ownership / an animated draw in between) ended in any order} on definite and INDEFINITE subjects; each scenario is profiled "
     "fault-free to count its _render_ calls K and then re-run with an exception injected into the k-th render for "
     "EVERY k in 1..K and every exception kind (RuntimeError, AttributeError, StopIteration, KeyboardInterrupt, "
     "RenderError), plus failures of _get_render_size_ and size-validation failures (terminal made too small); "
@@ -70,6 +71,7 @@ def run_scenario(sc, fault, env, res):
     errs = []
     outcome = "ok"
     it = None
+    its = []
 
     def after_close_checks(it):
         # after exhaustion / close / error the iterator is closed: control operations are
@@ -118,6 +120,9 @@ def run_scenario(sc, fault, env, res):
             for i in range(steps):
                 if kind == "iter_seek" and i % 2 and not indef:
                     it.seek(sc["seeks"][i % len(sc["seeks"])] % sc["n"])
+                if i == sc.get("resize_at"):
+                    # cached frames become unusable: later loops render again
+                    it.set_render_size(Size(*sc["size2"]))
                 try:
                     next(it)
                 except StopIteration:
@@ -178,12 +183,49 @@ def run_scenario(sc, fault, env, res):
                     break
             it.close()
             after_close_checks(it)
+        elif kind == "two_iters":
+            # two iterators alive at the same time, created in different ways and with
+            # different ownership of their data; ended in either order.  What one of them
+            # does with its data must not depend on the other.
+            for mode in sc["modes"]:
+                if mode in ("keep", "own"):
+                    rd = subj._get_render_data_(iteration=True)
+                    if mode == "keep":
+                        kept.append(rd[S.Subj].token)
+                        kept_data.append(rd)
+                    its.append(RenderIterator._from_render_data_(subj, rd, None, ExactPadding(), sc["loops"], sc["cache"], finalize=mode == "own"))
+                    del rd
+                elif mode == "ctor":
+                    its.append(RenderIterator(subj, None, ExactPadding(), sc["loops"], sc["cache"]))
+                else:  # a complete animated draw in between (it builds its own iterator)
+                    subj.draw(loops=1, cache=False)
+            for rnd_i in range(sc["steps"]):
+                for it in its:
+                    try:
+                        next(it)
+                    except StopIteration:
+                        pass
+            for idx in sc["end_order"]:
+                if idx < len(its):
+                    it = its[idx]
+                    it.close()
+                    after_close_checks(it)
+            for it in its:
+                it.close()
+            it = None
         else:
             raise AssertionError(kind)
     except KeyboardInterrupt:
         outcome = "KeyboardInterrupt"
     except Exception as e:
         outcome = type(e).__name__
+        for other in its:
+            # the iterators that did not fail are still open; their owner ends them
+            if other is not it:
+                try:
+                    other.close()
+                except Exception as e2:
+                    errs.append("close() of an iterator that had not failed raised %s" % type(e2).__name__)
         if it is not None and kind != "iter_drop":
             # "after ... an error the iterator is closed"
             try:
@@ -205,7 +247,8 @@ def run_scenario(sc, fault, env, res):
     del S.held[:]
     S.hold_refs = False
     rd_ = None
-    it = None
+    it = other = None
+    del its[:]
     # the injected exception object (and through its traceback the frames of the failed
     # operation) must not be kept alive by the harness
     subj.fail_at = subj.size_fail = None
@@ -235,7 +278,7 @@ def run_scenario(sc, fault, env, res):
 
 
 def gen_scenario(rnd):
-    kind = rnd.choice(["str", "render", "draw_still", "draw_anim", "draw_anim", "iter_dunder", "iter_full", "iter_close", "iter_drop", "iter_seek", "from_data_own", "from_data_keep", "iter_reentrant_close"])
+    kind = rnd.choice(["str", "render", "draw_still", "draw_anim", "draw_anim", "iter_dunder", "iter_full", "iter_close", "iter_drop", "iter_seek", "from_data_own", "from_data_keep", "iter_reentrant_close", "two_iters", "two_iters"])
     sc = dict(kind=kind, size=[rnd.randint(1, 4), rnd.randint(1, 3)], loops=rnd.choice([1, 2, 3]), cache=rnd.choice([False, True, 2, 100]), steps=rnd.randint(0, 8), seeks=[rnd.randint(0, 5) for _ in range(4)])
     if kind in ("str", "render", "draw_still") and rnd.random() < 0.5:
         sc["n"] = 1
@@ -246,6 +289,14 @@ def gen_scenario(rnd):
         sc["n"] = rnd.randint(2, 5)
     if kind == "draw_still":
         sc["check"] = rnd.random() < 0.8
+    if kind in ("iter_full", "iter_close", "iter_seek", "iter_drop") and rnd.random() < 0.5:
+        sc["resize_at"] = rnd.randint(1, 9)
+        sc["size2"] = [rnd.randint(1, 4), rnd.randint(1, 3)]
+    if kind == "two_iters":
+        sc["modes"] = [rnd.choice(["keep", "own", "ctor", "draw"]) for _ in range(rnd.randint(2, 3))]
+        sc["end_order"] = rnd.sample(range(3), 3)
+        sc.pop("indef_len", None)
+        sc["n"] = sc["n"] or rnd.randint(2, 5)
     return sc
 
 
